@@ -30,6 +30,10 @@ pub mod protocols;
 pub mod test_utils;
 pub mod traits;
 
+/// Verification hook: re-export of the crate-private de-duplication buffer.
+#[cfg(p2panda_p2panda_verif)]
+pub use dedup::DeduplicationBuffer;
+
 /// Configuration object for instantiating sync sessions.
 #[derive(Clone, Debug)]
 pub struct SessionConfig<T> {
